@@ -53,7 +53,7 @@ def reparse_sig(prop, clause, text_out, out2, ref):
     if out2 is not None and out2.kind != 'accept':
         if ref.verdict == 'accept':
             off = judge.impl_error_offset(text_out, out2.msg or '')
-            ctx = judge.ctx_at(text_out, ref, off) if off is not None \
+            ctx = judge.ctx_at(text_out, ref, off, fine=True) if off is not None \
                 else 'end'
         elif ref.verdict == 'reject':
             ctx = 'ref-also-rejects:' + ref.reason
@@ -144,7 +144,7 @@ def case_c01(acc, text, indents, tag=''):
                 'output %r: %s' % (P, R3.first_diff(out.tree, out2.tree)))
         if ref.verdict == 'reject':
             acc.bag.add('C01|conforming-reader|rejects-output|%s|%s' % (
-                ref.reason, judge.ctx_at(P, ref, ref.offset)
+                ref.reason, judge.ctx_at(P, ref, ref.offset, fine=True)
                 if ref.tok is not None else 'lexical'), w,
                 'output %r rejected at offset %d' % (P, ref.offset))
         elif ref.verdict == 'accept' and ref.neutral != out.tree:
@@ -191,7 +191,7 @@ def fragment_clause(frags, M, ref):
                         pos += len(txt)
                         continue
                 return ('fragment-is-not-one-token|%s|%s' % (
-                    judge.tclass(t), 'longer' if t.end > e else 'shorter'),
+                    judge.tclass(t, True), 'longer' if t.end > e else 'shorter'),
                     'fragment %r at %d but token %r' % (txt, s, t.value))
         pos += len(txt)
     return None
@@ -238,7 +238,7 @@ def case_c02(acc, text, tag=''):
                     'output %r: %s' % (M, R3.first_diff(want, got)))
         if ref.verdict == 'reject':
             acc.bag.add('C02|%s|conforming-reader-rejects-output|%s|%s' % (
-                dn, ref.reason, judge.ctx_at(M, ref, ref.offset)
+                dn, ref.reason, judge.ctx_at(M, ref, ref.offset, fine=True)
                 if ref.tok is not None else 'lexical'), w,
                 'output %r rejected at offset %d' % (M, ref.offset))
         elif ref.verdict == 'accept':
